@@ -84,15 +84,15 @@ def body_wiring(umn: bool, root: bool, v0: bool, v1: bool, v2: bool, v3: bool, p
 
 # ------------------------------------------------------------------ C07.2 order independence
 
-POOL2 = [".Links", ".names", "a.txt", "b.txt", "zdir", "hid"]
-LINKS = b"Name=From Links\nPath=./a.txt\nNumb=2\n\nName=Remote\nType=1\nPath=/r1\nHost=h.example\nPort=70\nNumb=1\n"
-NAMESF = b"Name=From names\nPath=./a.txt\nAbstract=abs from names\n\nName=Bee\nPath=./b.txt\nNumb=-1\n\nType=X\nPath=./hid/\n"
+POOL2 = [".Links", ".names", "a.txt", "b.txt", "zdir", "hid", "b2.txt"]
+LINKS = b"Name=From Links\nPath=./a.txt\nNumb=2\n\nName=Remote\nType=1\nPath=/r1\nHost=h.example\nPort=70\nNumb=1\n\nType=X\nPath=./b2.txt\n"
+NAMESF = b"Name=From names\nPath=./a.txt\nAbstract=abs from names\n\nName=Bee\nPath=./b.txt\nNumb=-1\n\nType=X\nPath=./hid/\n\nName=Title for the hidden one\nPath=./b2.txt\n"
 
 
 def _nodes2(order):
     names = [POOL2[i] for i in order]
     nodes = {"/": mv.Dir(["d"]), "/d": mv.Dir(names), "/d/.Links": mv.File(LINKS), "/d/.names": mv.File(NAMESF),
-             "/d/a.txt": mv.File(b"a\n"), "/d/b.txt": mv.File(b"b\n"), "/d/zdir": mv.Dir([]), "/d/hid": mv.Dir([])}
+             "/d/a.txt": mv.File(b"a\n"), "/d/b.txt": mv.File(b"b\n"), "/d/zdir": mv.Dir([]), "/d/hid": mv.Dir([]), "/d/b2.txt": mv.File(b"b2\n")}
     return nodes
 
 
@@ -111,7 +111,7 @@ def _listing2(umn, order):
         dl.restore_dir_env()
 
 
-REF2 = {u: _listing2(u, [0, 1, 2, 3, 4, 5]) for u in (False, True)}
+REF2 = {u: _listing2(u, [0, 1, 2, 3, 4, 5, 6]) for u in (False, True)}
 
 
 def body_order(umn: bool, i0: int, i1: int, i2: int, i3: int, i4: int) -> bool:
@@ -120,6 +120,7 @@ def body_order(umn: bool, i0: int, i1: int, i2: int, i3: int, i4: int) -> bool:
     for i in (i0, i1, i2, i3, i4):
         order.append(rest.pop(i))
     order.append(rest[0])
+    order.insert(i4 + i0 if i4 + i0 <= 6 else 6, 6)  # the 7th name (hidden by .Links, named by .names) at a derived position
     got = _listing2(umn, order)
     hx.reach()
     hx.require(got == REF2[umn], "C07:listing-depends-on-enumeration-order",
@@ -128,7 +129,7 @@ def body_order(umn: bool, i0: int, i1: int, i2: int, i3: int, i4: int) -> bool:
     hx.require(len(sels) == len(set(sels)), "C07:entry-listed-twice", lambda: repr(sels))
     if umn:
         # documented: a Type=X block hides the entry it names (also when the Path is written with a trailing slash)
-        hx.require("/d/hid" not in sels and "/d/hid/" not in sels, "C07:entry-hidden-by-metadata-is-listed", lambda: repr(sels))
+        hx.require("/d/hid" not in sels and "/d/hid/" not in sels and "/d/b2.txt" not in sels, "C07:entry-hidden-by-metadata-is-listed", lambda: repr(sels))
         hx.require(sorted(sels) == sorted(["/r1", "/d/a.txt", "/d/b.txt", "/d/zdir"]), "C07:listing-not-exactly-visible-entries", lambda: repr(sels))
     return True
 
